@@ -114,9 +114,15 @@ func (self Value) GetByPath(pathes ...Path) Value {
 	var err error
 
 	for i, path := range pathes {
+		if desc == nil || !pathFitsType(path.t, tt) || !pathFitsType(path.t, desc.Type()) {
+			return errValue(meta.ErrDismatchType, fmt.Sprintf("%dth path %s doesn't fit value type %s", i, path, tt), nil)
+		}
 		switch path.t {
 		case PathFieldId:
 			id := path.id()
+			if desc.Struct().FieldById(id) == nil {
+				return errValue(meta.ErrUnknownField, fmt.Sprintf("field id %d is not defined in IDL", id), nil)
+			}
 			tt, start, err = searchFieldId(&p, id)
 			desc = desc.Struct().FieldById(id).Type()
 			isList = tt == thrift.LIST
